@@ -117,6 +117,12 @@ var searchRoots = []searchRoot{
 	{"7k/8/8/8/8/8/8/R6K w - - 97 60", nil, "net fifty"},
 	{"k7/p7/P7/8/8/7p/7P/7K w - - 97 60", nil, "net fifty"},
 	{"k7/p7/P7/8/8/7p/7P/7K b - - 99 60", nil, "net fifty"},
+	// the fifty-move draw has to be claimed, so a game may be handed over with a clock far beyond 100
+	// (around every width a clock might be squeezed into): every quiet line is worth 0 there
+	{"7k/8/8/8/8/8/8/R6K w - - 127 90", nil, "net fifty"},
+	{"7k/8/8/8/8/8/8/R6K b - - 128 90", nil, "net fifty"},
+	{"7k/8/8/8/8/8/8/R6K w - - 255 200", nil, "net fifty"},
+	{"7k/8/8/8/8/8/8/R6K w - - 65536 40000", nil, "net fifty"},
 	{"r3k2r/8/8/8/8/8/8/R3K2R w KQkq - 0 1", nil, "castle"},
 	{"4k3/8/8/8/2pP4/8/8/4K2B b - d3 0 1", nil, "ep net"},
 	{"r1b1k3/ppp5/8/4N3/8/8/PPP5/2K5 w - - 0 1", []string{"e5f7"}, "tactical"},
